@@ -37,6 +37,7 @@ type RunResult struct {
 
 type RunOpts struct {
 	Target    string
+	Known     map[string]bool
 	Oracles   func(c *Chain) []Oracle
 	FullReplay bool
 	QuietBlocks int
@@ -95,6 +96,7 @@ func RunSeed(seed uint64, prof *Profile, opts RunOpts) (res *RunResult) {
 	g.Attach(c)
 	ex := NewExecutor(c, opts.Oracles(c))
 	ex.Target = opts.Target
+	ex.Known = opts.Known
 	var lh logHasher
 	total := g.TotalBlocks
 	quiet := opts.QuietBlocks
@@ -165,6 +167,7 @@ func Replay(tr *Trace, opts RunOpts) (res *RunResult) {
 	defer c.Close()
 	ex := NewExecutor(c, opts.Oracles(c))
 	ex.Target = opts.Target
+	ex.Known = opts.Known
 	var lh logHasher
 	for _, p0 := range tr.Plans {
 		p := sanitizePlan(c, p0)
